@@ -58,6 +58,10 @@ func exec(op string) vlib.Res {
 		return execN3Deleg(f)
 	case "proofname check":
 		return execProofName(f)
+	case "ttl calc":
+		return execTTL(f)
+	case "l3 advance":
+		return sysAdvance(f)
 	case "filter zone":
 		return execFilterZone(f)
 	case "rootds check":
@@ -115,7 +119,11 @@ func gen(r *vlib.R, n int, tier string, emit func(string)) {
 		case k == 29:
 			emit(genN3(r))
 		case k == 30:
-			emit(genN3Deleg(r))
+			if r.Bool() {
+				emit(genN3Deleg(r))
+			} else {
+				emit(genTTL(r))
+			}
 		case k == 23 || k == 24:
 			emit(genAdHitChase(r))
 		case k == 25 || k == 26:
@@ -242,6 +250,7 @@ func shapeFacts(out map[string]any) {
 	out["shape_bare_denials_go_through_authority"] = false
 	out["shape_key_fetch_is_validated"] = false
 	out["shape_wildcard_proof_from_filtered_authority"] = false
+	out["shape_validated_denial_keeps_signer_zone_only"] = false
 	out["shape_cd_fetch_only_before_explicit_validation"] = false
 	fset := token.NewFileSet()
 	file, err := parser.ParseFile(fset, filepath.Join(repoDir(), "middleware/resolver/resolver.go"), nil, 0)
@@ -356,6 +365,33 @@ func shapeFacts(out map[string]any) {
 				})
 				w := posOfCall(fd.Body, "VerifyWildcardAnswerForZoneWithWork")
 				out["shape_wildcard_proof_from_filtered_authority"] = filt != 0 && w != 0 && filt < w
+			}
+			// (5) authority(): the whole authority section is cut down to the chosen signer's zone before the denial
+			//     proof is read from it and before AD is put on the reply (fadc30d)
+			if name == "authority" {
+				var filt, adset token.Pos
+				ast.Inspect(fd.Body, func(x ast.Node) bool {
+					as, isAs := x.(*ast.AssignStmt)
+					if !isAs || len(as.Lhs) != 1 || len(as.Rhs) != 1 {
+						return true
+					}
+					l, isSel := as.Lhs[0].(*ast.SelectorExpr)
+					if !isSel {
+						return true
+					}
+					if c, isCall := as.Rhs[0].(*ast.CallExpr); isCall && l.Sel.Name == "Ns" && len(c.Args) == 2 && filt == 0 {
+						if f, ok := c.Fun.(*ast.SelectorExpr); ok && f.Sel.Name == "FilterRRsToZone" {
+							if a, ok := c.Args[1].(*ast.Ident); ok && a.Name == "chosenSigner" {
+								filt = as.Pos()
+							}
+						}
+					}
+					if l.Sel.Name == "AuthenticatedData" && adset == 0 {
+						adset = as.Pos()
+					}
+					return true
+				})
+				out["shape_validated_denial_keeps_signer_zone_only"] = filt != 0 && adset != 0 && filt < adset
 			}
 			// (3) a response served by the root gets its DS set from the trust anchors before anything is judged
 			if name != "validateDelegation" {
